@@ -1129,9 +1129,27 @@ func cmdQuery(args []string) error {
 				}
 			}
 		}
+		// a grouping value that is the empty text (the ID of the predicate ""@[], of the node /u<>): a group like any other
+		emptyScenario := strings.Contains(*mode, "group") && !sepScenario && r.chance(1, 6)
+		if emptyScenario {
+			for _, x := range [][3]string{{"a", "", "b"}, {"a", "", "c"}, {"b", "", "c"}, {"a", "y", "b"}, {"", "y", "b"}, {"", "", "a"}, {"c", "z", ""}} {
+				// (the constructor refuses an empty ID, the text parser and INSERT DATA accept ""@[])
+				pr, perr := predicate.Parse(fmt.Sprintf("%q@[]", x[1]))
+				sn, serr := node.NewNodeFromStrings("/u", x[0])
+				on, oerr := node.NewNodeFromStrings("/u", x[2])
+				if perr != nil || serr != nil || oerr != nil {
+					continue
+				}
+				t, err := triple.New(sn, pr, triple.NewNodeObject(on))
+				if err == nil && !seen[t.String()] {
+					seen[t.String()] = true
+					g.define(t)
+				}
+			}
+		}
 		// sums whose running value leaves int64 and comes back (9223372036854775802 + 10 - 10), whose total does not fit
 		// (2^62 + 2^62), and ordinary ones: the outcome must not depend on the order in which the rows arrive
-		sumScenario := strings.Contains(*mode, "group") && !sepScenario && r.chance(1, 5)
+		sumScenario := strings.Contains(*mode, "group") && !sepScenario && !emptyScenario && r.chance(1, 5)
 		if sumScenario {
 			for _, x := range []struct {
 				s string
@@ -1176,6 +1194,12 @@ func cmdQuery(args []string) error {
 					strings.Join(names[:nfrom], ", "), []string{"?sid, ?oid", "?oid, ?sid"}[k])
 				q.intent = ""
 				q.hist["string-keys-with-separator"]++
+			}
+			if emptyScenario && k < 3 {
+				col := []string{"?p id ?k ?o", "?p ?o id ?k", "id ?k ?p ?o"}[k]
+				text = fmt.Sprintf("select ?k, count(?p) as ?n, count(distinct ?p) as ?d from %s where { ?s %s } group by ?k;", strings.Join(names[:ng], ", "), col)
+				q.intent = ""
+				q.hist["empty-text-group-key"]++
 			}
 			if sumScenario && k < 3 {
 				text = fmt.Sprintf("select ?s, sum(?o) as ?t, count(?o) as ?n from %s where { ?s \"w\"@[] ?o } group by ?s%s;",
